@@ -26,6 +26,14 @@ CHECKS = {
             "bytes changed <=> 'Fixed:' announced <=> fixed exit code <=> API files_fixed; scan/stdin/list leave every file and the temp directory untouched.", "3 C10"),
     "C12": ("bounded-exhaustive enumeration of documents x rule subsets; differential: set run vs union of single-rule runs",
             "Reports under all rules / default set / default minus each rule must equal the multiset union of each rule's reports alone, on every document of the spaces.", "3 C12"),
+    "C11": ("bounded-exhaustive enumeration of documents x insertion points x generated pragma family; differential against the same document without the pragma",
+            "failures with the pragma = shifted failures minus exactly the named rules on exactly the covered lines; tokens = shifted tokens; malformed pragmas reported and inert.", "3 C11"),
+    "C18": ("exhaustive enumeration of outcome-producing scenarios (file-outcome lists x continue-on-error x scheme x scheme source, all sub-commands) against the documented table",
+            "Exit code must equal table[category][scheme], the category being derived from the constructed scenario and measured observables; injected plugin/parser faults included.", "3 C18"),
+    "C19": ("exhaustive enumeration of directory trees x argument lists x options; reference selection model replayed against the implementation (direct call and CLI)",
+            "The selected file set, its order, uniqueness and the error/no-files result are compared with a model of the documented rules on every case.", "3 C19"),
+    "C20": ("bounded-exhaustive enumeration of documents x all 64 extension subsets; differential parse equality + front-matter shift oracle",
+            "tokens under S must equal tokens under S restricted to the extensions whose syntax occurs; disabled extensions leave no trace; front matter = token + shifted parse of the rest.", "3 C20"),
 }
 NOT_YET = {}
 
